@@ -151,6 +151,6 @@ Section FOUND.
       + exfalso. destruct ps as [c'|it'|d' [a'|]]; cbn [DeepSpec.reading] in Hpk; try discriminate Hpk.
         destruct items as [|x0 l0]; [discriminate Hpk|]. destruct (all_some (map (reading it') (x0 :: l0))); cbn in Hpk; discriminate Hpk.
       + apply IHd. exact Hin0.
-    - destruct v; try exact I; cbn [DeepSpec.reading] in Hr; discriminate.
+    - destruct v as [| |ms]; try exact I. cbn [declared_all] in Hd. destruct Hd.
   Qed.
 End FOUND.
